@@ -135,7 +135,19 @@ def parseOps (op : String) (args : List String) (_impl : String) : Option String
         match Grammar.parse ts with
         | some p => if Typing.wellTyped p then "" else "n/a"
         | none => "n/a"
-  | "JUDGEFAULT", [_, kind, lo, hi] =>
+  | "JUDGEFAULT", [t, kind, lo, hi] =>
+    -- the independent typing specification must reject the faulty program too (generator and
+    -- specification are checked against each other; syntax faults do not parse and are skipped here)
+    let specAccepts : Bool := match textOfHex t with
+      | none => false
+      | some s =>
+        match lex s with
+        | .error _ => false
+        | .ok ts =>
+          match Grammar.parse ts with
+          | some p => Typing.wellTyped p
+          | none => false
+    if specAccepts then some s!"bad:specification-accepts-the-faulty-program-{kind}" else
     match lo.toNat?, hi.toNat? with
     | some lo, some hi =>
       -- impl = `!Kind[:args]@a-b!Kind…`
